@@ -19,6 +19,9 @@ CHECKS = {
     "C18": dict(spec="RequestWait", ref="DESIGN.md §4 C18",
                 text="RequestWait with 2 callers is explored exhaustively by TLC; schedules with 2..4 concurrent callers are replayed into the real code and validated. NoCrossTalk holds; NoLostResponse is violated by design (a waiter discards another caller's response) and is a listed known finding; any other signature is reported.",
                 note="The stream's wake-up policy is environment nondeterminism. Known finding keyed on clause=NoLostResponse consumer!=owner discarded."),
+    "C19": dict(spec="SessionStore", ref="DESIGN.md §4 C19",
+                text="SessionStore specifies the store as a map from fresh ids to timestamped records with one action per public operation (incl. initialize and request handling through the protocol handler); TLC checks id freshness, record stability and the exact-expiry action property exhaustively (3 sessions, clock 0..4, max_age 0..2). Maximal histories of the edge cover plus seeded random sequences are executed against the real InMemorySessionManager/ProtocolHandler under a model clock; every event logs arguments, return value and the full projected store, and TLC replays the trace through the specification deterministically - a trace it cannot follow is a violation at that operation.",
+                note="Trusted: TLC, the clock seam (memory.time), renaming of real ids by first appearance. Bounds: model constants; random sequences of 40 (quick) / 200 (thorough) operations."),
 }
 
 
